@@ -16,6 +16,6 @@ require (
 	golang.org/x/tools v0.29.0
 )
 
-replace github.com/jrhy/mast => /tmp/rdev
+replace github.com/jrhy/mast => /repo
 
 replace golang.org/x/sys => golang.org/x/sys v0.29.0
